@@ -196,6 +196,12 @@ def cases(tier, rng):
     for data in ([1, 3, 0, 2, 4], [0, 0, 7, 1]):
         for mask in range(2 ** (len(data) - 1)):
             yield {"op": "histogram_default", "chunks": _cut(data, mask)}
+    # 0b. scale thresholds: count_encoded counts in blocks of 1,000,000 values. One chunk / the in-memory data holding exactly
+    #     the block size, one more, 1.08 block, exactly two blocks; chunkings with a chunk above and one below the block size
+    for nreads, rlen, cuts in ((25000, 44, []), (25001, 44, []), (30000, 40, []), (50000, 44, []), (30000, 40, [29000]),
+                               (30000, 40, [1000]), (30000, 40, [10000, 20000]), (56000, 40, [28000])):
+        yield {"op": "count_kmers_big", "nreads": nreads, "rlen": rlen, "k": 5, "cuts": cuts, "seed": 7 + nreads % 5,
+               "chunks": [[0]] * (len(cuts) + 1)}
     # 1. exhaustive chunkings
     for n in range(1, N + 1):
         for mask in range(2 ** (n - 1)):
@@ -313,9 +319,21 @@ def cases(tier, rng):
             for _ in range(rng.randrange(0, 3)):
                 s = rng.randrange(0, sizes[ci])
                 peaks.append([ci, s, rng.randrange(s + 1, sizes[ci] + 1)])
-        kind = rng.choice(["pileup_hist", "pileup_sum", "mask_sum", "under", "under_mean", "merged", "pileup_data"])
-        if kind in ("under", "under_mean") and not peaks:
+        kind = rng.choice(["pileup_hist", "pileup_sum", "mask_sum", "under", "under_mean", "merged", "pileup_data",
+                           "under_stranded", "under_stranded", "under_stranded_mean"])
+        if kind in ("under", "under_mean", "under_stranded") and not peaks:
             peaks = [[0, 0, sizes[0]]]
+        if kind == "under_stranded_mean":            # windows of one common size, as `track[windows].mean(axis=0)` needs
+            w = rng.randrange(1, min(sizes) + 1)
+            peaks = []
+            for ci in range(nchrom):
+                for _ in range(rng.randrange(0, 3)):
+                    s0 = rng.randrange(0, sizes[ci] - w + 1)
+                    peaks.append([ci, s0, s0 + w])
+            if not peaks:
+                peaks = [[0, 0, w]]
+        if kind.startswith("under_stranded"):         # strand 1 = '+', 0 = '-', 2 = '.' (neither)
+            peaks = [p + [rng.choice([1, 0, 2, 2])] for p in peaks]
         mask = rng.getrandbits(len(rows) - 1) if len(rows) > 1 else 0
         yield {"op": "pipeline", "kind": kind, "sizes": sizes, "chunks": _cut(rows, mask), "peaks": sorted(peaks),
                "bins": rng.randrange(1, 5)}
@@ -368,6 +386,21 @@ def _hist_args(c):
     if c["how"] == "range":
         return dict(bins=len(e) - 1, range=(e[0], e[-1]))
     return dict(bins=list(e))
+
+
+def _big_reads(c):
+    return np.random.default_rng(c["seed"]).integers(0, 4, size=(c["nreads"], c["rlen"]), dtype=np.uint8)
+
+
+def _kmer_digest(labels, counts):
+    """order-independent exact summary of a full count vector: sum over k-mers of count * (1 + base-4 value of the k-mer)^2"""
+    tot = 0
+    for lab, cnt in zip(labels, counts.tolist()):
+        v = 0
+        for ch in str(lab):
+            v = v * 4 + "ACGT".index(ch)
+        tot += int(cnt) * (1 + v) ** 2
+    return tot
 
 
 def _kmer_obs(r, k):
@@ -430,6 +463,12 @@ def _graph_build(m, nodes):
     return built, pulls
 
 
+def _stranded_table(m, rows):
+    from bionumpy.datatypes import StrandedInterval
+    return StrandedInterval(["chr%d" % (r[0] + 1) for r in rows], [r[1] for r in rows], [r[2] for r in rows],
+                            ["-+."[r[3]] for r in rows])
+
+
 def _interval_table(m, rows):
     return m["Interval"](["chr%d" % (r[0] + 1) for r in rows], [r[1] for r in rows], [r[2] for r in rows])
 
@@ -470,6 +509,14 @@ def _pipeline(m, c, streamed):
             for p in range(int(s), int(e)):
                 dense[ch][p] += int(v)
         return dense
+    if kind in ("under_stranded", "under_stranded_mean"):
+        peaks = genome.get_intervals(_stranded_table(m, c["peaks"]), stranded=True)
+        r = gi.get_pileup()[peaks]
+        if kind == "under_stranded_mean":
+            r = fin(r.mean(axis=0))
+            return [_fl(x) for x in np.asarray(r).ravel()]
+        r = fin(r)
+        return [[int(x) for x in np.asarray(row.to_array() if hasattr(row, "to_array") else row).ravel()] for row in r]
     if kind in ("under", "under_mean"):
         peaks = genome.get_intervals(_interval_table(m, c["peaks"]))
         r = gi.get_pileup()[peaks]
@@ -506,6 +553,15 @@ def impl(c):
             r = bnp.streams.histogram(st, **kw)
             mem = bnp.streams.histogram(allv, **kw)
             f = lambda h: {"hist": [int(x) for x in h[0]], "edges": _edges_out(h[1])}
+            return {"v": f(r), "mem": f(mem)}
+        if op == "count_kmers_big":
+            seqs = _big_reads(c)
+            b = [0] + c["cuts"] + [c["nreads"]]
+            mk = lambda a: bnp.EncodedRaggedArray(bnp.EncodedArray(a.ravel(), bnp.DNAEncoding), np.full(len(a), c["rlen"]))
+            st = m["BnpStream"](mk(seqs[x:y]) for x, y in zip(b[:-1], b[1:]))
+            r = m["count_kmers"](st, c["k"])
+            mem = m["count_kmers"](mk(seqs), c["k"])
+            f = lambda e: {"total": int(np.sum(e.counts)), "digest": _kmer_digest(e.alphabet, np.asarray(e.counts).ravel())}
             return {"v": f(r), "mem": f(mem)}
         if op in ("count_kmers", "count_kmers1"):
             mk = lambda rows: bnp.as_encoded_array(["".join("ACGT"[x] for x in s) for s in rows], bnp.DNAEncoding)
@@ -623,6 +679,15 @@ def oracle(c):
             lo, hi = lo - 0.5, hi + 0.5
         edges = [float(x) for x in np.linspace(lo, hi, 11)]
         return {"hist": _hist(data, edges), "edges": _edges_out(edges)}
+    if op == "count_kmers_big":
+        seqs = _big_reads(c).astype(np.int64)
+        k = c["k"]
+        nwin = c["rlen"] - k + 1
+        h = np.zeros((c["nreads"], nwin), dtype=np.int64)
+        for j in range(k):                      # big-endian base-4 value of every window, row by row
+            h = h * 4 + seqs[:, j:j + nwin]
+        counts = np.bincount(h.ravel(), minlength=4 ** k)
+        return {"total": int(c["nreads"] * nwin), "digest": int(sum(int(n) * (1 + v) ** 2 for v, n in enumerate(counts.tolist())))}
     if op in ("count_kmers", "count_kmers1"):
         k, cnt = c["k"], {}
         for s in data:
@@ -707,6 +772,11 @@ def oracle(c):
             return sum(1 for v in _flat(dense) if v)
         if kind == "pileup_data":
             return dense
+        if kind in ("under_stranded", "under_stranded_mean"):
+            rows_ = [dense[ci][s:e] if f == 1 else dense[ci][s:e][::-1] for ci, s, e, f in c["peaks"]]   # not '+' : reversed
+            if kind == "under_stranded":
+                return rows_
+            return [_fl(Fraction(sum(col), len(rows_))) for col in zip(*rows_)]
         if kind == "under":
             return [dense[ci][s:e] for ci, s, e in c["peaks"]]
         if kind == "under_mean":
@@ -759,14 +829,15 @@ def agree_model(c, got, m):
     return core.canon(got["v"]) == core.canon(_as_value(c, m))
 
 
-MODEL_PIPELINES = {"pileup_data", "pileup_sum", "mask_sum", "pileup_hist", "under"}
+MODEL_PIPELINES = {"pileup_data", "pileup_sum", "mask_sum", "pileup_hist", "under", "under_stranded"}
 
 
 def model_request(c):
     if c["op"] == "pipeline":
         if c["kind"] not in MODEL_PIPELINES:
             return None      # values under intervals / merged: implementation vs dense oracle only
-        return {"op": "pipeline", "kind": c["kind"], "sizes": c["sizes"], "chunks": c["chunks"], "bins": c["bins"], "peaks": c["peaks"]}
+        return {"op": "pipeline", "kind": c["kind"], "sizes": c["sizes"], "chunks": c["chunks"], "bins": c["bins"],
+                "peaks": [p[:3] + [1 if p[3] == 1 else 0] if len(p) == 4 else p for p in c["peaks"]]}
     if c["op"] == "groupby":
         return {"op": "groupby", "fast": c["fast"], "chunks": c["chunks"]}
     return c
@@ -778,6 +849,8 @@ def finding_key(c, got, exp):
         return "histogram:default-bins"
     if op == "count_kmers1":
         return "count_kmers:k=1"
+    if op == "count_kmers_big":
+        return "count_kmers:more-than-1e6-values-in-one-chunk"
     if op == "graph_many":
         return "graph:" + c["mode"] + ("-raises-" + got["err"] if isinstance(got, dict) and "err" in got else "-wrong-value")
     if op == "graph" and c["nodes"][c["root"]]["k"] == "stream":
